@@ -14,15 +14,19 @@ def showVal : Val → String
   | .str s => "str:" ++ hexOf s
 
 /-- `pycore.run <fuel> <module>` → text: `END <ending>` / `OUT <code points>` per line / `GLOBAL <name> <value>` -/
-def runCmd (args : List Sexp) : Option String := do
+def runWith (optimized : Bool) (args : List Sexp) : Option String := do
   match args with
   | [f, m] =>
     let fuel ← nat? f
     let m ← AstSexp.module? m
-    let o := run fuel m
+    let o := if optimized then runO fuel m else run fuel m
     let lines := ["END " ++ o.ending] ++ o.out.map (fun l => "OUT " ++ hexOf l) ++
       o.globals.map (fun (n, v) => "GLOBAL " ++ n ++ " " ++ showVal v)
     pure (encStr ("\n".intercalate lines))
   | _ => none
+
+def runCmd (args : List Sexp) : Option String := runWith false args
+/-- `pycore.runO`: the same under `python -O` semantics -/
+def runOCmd (args : List Sexp) : Option String := runWith true args
 
 end PMV.Driver.PyCore
